@@ -1,0 +1,34 @@
+//go:build verif
+
+package protocol
+
+// Machine-checked contracts for /verif (govc). Comment-only, compiled only
+// with -tags verif; changes no behaviour.
+
+// ---- C28: the signed bytes of a command are origin || be64(id) || be64(timestamp) ----
+
+//@ func (*SleepCommand).SignableBytes
+//@ prop C28
+//@ check bounds alloc
+//@ ensures len(result) == 32
+//@ ensures forall i in 0..16: result[i] == s.OriginAgent[i]
+//@ ensures be64(result, 16) == s.CommandID && be64(result, 24) == s.Timestamp
+
+//@ func (*WakeCommand).SignableBytes
+//@ prop C28
+//@ check bounds alloc
+//@ ensures len(result) == 32
+//@ ensures forall i in 0..16: result[i] == w.OriginAgent[i]
+//@ ensures be64(result, 16) == w.CommandID && be64(result, 24) == w.Timestamp
+
+//@ func (*SleepCommand).IsZeroSignature
+//@ prop C28
+//@ check bounds
+//@ loop 0 invariant -1 <= rangeindex && rangeindex < 64 && forall j in 0..rangeindex+1: s.Signature[j] == 0
+//@ ensures result <==> forall j in 0..64: s.Signature[j] == 0
+
+//@ func (*WakeCommand).IsZeroSignature
+//@ prop C28
+//@ check bounds
+//@ loop 0 invariant -1 <= rangeindex && rangeindex < 64 && forall j in 0..rangeindex+1: w.Signature[j] == 0
+//@ ensures result <==> forall j in 0..64: w.Signature[j] == 0
